@@ -11,10 +11,10 @@ namespace Sprout
 open Select
 
 structure DemeView where
-  id : String
+  id : List Nat
   level : Nat
   active : Bool
-  children : List String
+  children : List (List Nat)
   seed : Option Ind
   pop : List Ind            -- current population
   histBest : Option Ind     -- best over the whole history
@@ -34,7 +34,7 @@ def View.level (v : View) (l : Nat) : List DemeView := v.demes.filter (·.level 
 def View.activeAt (v : View) (l : Nat) : Nat := ((v.level l).filter (·.active)).length
 
 structure Cand where
-  deme : String
+  deme : List Nat
   level : Nat
   inds : List Ind
   /-- `features.nbc_mean_distance`: `none` = not set, `some none` = NaN, `some (some m)` -/
@@ -44,9 +44,9 @@ deriving Repr
 /-- environment answers for one sprouting round -/
 structure Env where
   /-- NBC of a deme's current population: distance matrix (input order) and `np.mean` -/
-  nbc : String → Option ((Nat → Nat → Rat) × Option Rat)
+  nbc : List Nat → Option ((Nat → Nat → Rat) × Option Rat)
   /-- `norm(ind.genome − sibling.centroid, ord)`; `none` = the sibling has no centroid -/
-  dist : List Rat → String → Option Rat
+  dist : List Rat → List Nat → Option Rat
 
 inductive Generator
   | bestPerDeme
